@@ -218,6 +218,19 @@ Example C02_repeated_variable : let X := FLeaf [-1; 1] [0; 2] [3 / 2; -1 / 2] in
 Proof. cbv zeta. cbn [leaves_ok sample map2]. pose proof C02_bounded_sample as (_ & B). cbn [fst snd] in B.
   assert (LX : length [-1; 1] = 2%nat /\ length [0; 2] = 2%nat /\ bounds [-1; 1] [0; 2] [3 / 2; -1 / 2]) by (split; [reflexivity|split; [reflexivity|exact B]]).
   split; [exact (conj (conj LX LX) LX)|reflexivity]. Qed.
+(* ... and of the operations as pba/pbox_abc.py has them NOW: Staircase.add / sub / mul / div translated on every run (Gen/GenGlue.v), called
+   with dependency 'f', return - when they return - a well-formed p-box that bounds the sample of outcomes *)
+Theorem C02_translated_operations_sound steps plo phi (p q : list R * list R) (u v : list R) r fuel : (0 < steps)%nat ->
+  snd_ steps p u -> snd_ steps q v ->
+  (gen_add RN steps plo phi fuel p q DF = Ok r -> snd_ steps r (map2 Rplus u v)) /\
+  (gen_sub RN steps plo phi fuel p q DF = Ok r -> snd_ steps r (map2 Rminus u v)) /\
+  (gen_mul RN steps plo phi mul_fuel p q DF = Ok r -> snd_ steps r (map2 Rmult u v)) /\
+  (gen_div RN steps plo phi mul_fuel p q DF = Ok r -> snd_ steps r (map2 Rdiv u v)).
+Proof.
+  intros Hs Sp Sq. rewrite gen_add_is_model, gen_sub_is_model, gen_mul_is_model, gen_div_is_model.
+  exact (C02_operations_sound steps plo phi p q u v r Hs Sp Sq).
+Qed.
 Print Assumptions C02_frechet_composes.
+Print Assumptions C02_translated_operations_sound.
 Print Assumptions C02_expression_sound.
 Print Assumptions C02_operations_sound.
